@@ -139,6 +139,10 @@ w("")
 head("normalizeField", nonnil["Field"], ["Field"] + meta_slices("Field"))
 w(f"//@   ensures [one-row] len(s.Field) == old(len(s.Field)) + 1 && {last('Field')}.AppName == old(app.Name.Part) && {last('Field')}.TypeName == typeName && {last('Field')}.FieldName == fieldName && {last('Field')}.FieldOpt == old(field.Opt)")
 w(f"//@   ensures [rows-kept] {kept('Field')}")
+w("// every constraint of the field reaches the row: a length constraint with both of its bounds, whatever they are (an")
+w("// open-ended range has a minimum and no maximum), and precision / scale")
+w("//@   loop 0 step [length-constraint-is-carried] c.Length != nil ==> fc.Length.Min == c.Length.Min && fc.Length.Max == c.Length.Max")
+w("//@   loop 0 step [precision-and-scale-are-carried] fc.Precision == c.Precision && fc.Scale == c.Scale")
 w("")
 
 ALIAS_KINDS = ["Primitive_", "Sequence", "Set", "TypeRef"]
